@@ -40,11 +40,16 @@ def check(ctx):
     zd = _expect_args(ctx, "C07-a", GAS + "density_DAK:Z arguments", fd.where(), d, ZQ, names, "density uses the library's Z at its own (T, p, Tpc, ppc)")
     zb = _expect_args(ctx, "C07-a", GAS + "b_factor_DAK:Z arguments", fb.where(), b, ZQ, names, "Bg uses the library's Z at its own (T, p, Tpc, ppc)")
     prod = nf.mul(d, b)
-    free = not nf.depends(prod, "pressure") and not _atoms_named(prod, ZQ)
+    # independence is decided by differentiation (exact: the derivative must vanish identically), which is
+    # insensitive to un-cancelled factors such as (T + 459.67)^-1 (T + 459.67)
+    zsym = nf.sym("@Z")
+    prod_s = nf.subst(prod, lambda a: zsym if a[0] == "fn" and a[1] == ZQ else None)
+    allowed = {"specific_gravity", "pressure_standard", "temperature_standard"}
+    dep = sorted(v for v in (nf.symbols(prod_s) - allowed) if not nf.is_zero(nf.diff(prod_s, v)))
     ctx.check(
-        free, "C07-a", GAS + "density_DAK*b_factor_DAK", fd.where(),
-        "gas density times Bg contains neither pressure nor Z (it is the standard-condition mass content)",
-        signature="rho*Bg depends on p or Z", product=nf.show(prod, 400),
+        not dep, "C07-a", GAS + "density_DAK*b_factor_DAK", fd.where(),
+        "gas density times Bg is the standard-condition mass content: it depends on the gas gravity and the standard conditions only - not on pressure, temperature or Z",
+        signature="rho*Bg depends on " + ",".join(dep), product=nf.show(prod, 400),
     )
     if zd is not None:
         # density * Z * (T + 459.67) / (p * gamma) must be a positive constant (M_air / R)
